@@ -38,6 +38,8 @@ pub enum ROp {
 	AddSend,
 	ChangeRate(u32),
 	Callback(usize),
+	/// drop the handle of the i-th track (it lives on while a track below it is alive)
+	DropTrack(usize),
 }
 
 #[derive(Clone, Debug, Serialize, Deserialize)]
@@ -86,6 +88,7 @@ fn gen_case(seed: u64, index: u64, tier: Tier) -> Case {
 						}
 						ROp::ChangeRate(*rng.pick(&RATES))
 					}
+					7 if nt > 0 && rng.chance(0.6) => ROp::DropTrack(rng.usize_below(nt)),
 					_ => {
 						pending_add = false;
 						ROp::Callback(rng.urange(1, 200))
@@ -215,6 +218,13 @@ fn run_orders(case: &Case, ops: &[ROp]) -> CaseResult {
 						tracks.push(Some(h));
 					}
 					Err(_) => tracks.push(None),
+				}
+			}
+			ROp::DropTrack(i) => {
+				if let Some(t) = tracks.get_mut(*i) {
+					if t.take().is_some() {
+						res.hit("track_handles_dropped");
+					}
 				}
 			}
 			ROp::AddSend => {
